@@ -663,7 +663,7 @@ func c14Matrix(r *core.Run, self, raceBin, raceDir string, childLog *[]string, m
 			r.Violate(v.sig, v.what, v.detail)
 		}
 	}
-	var ran, never []string
+	ran, never := []string{}, []string{}
 	for k, c := range cells {
 		parts := strings.SplitN(k, "|", 3)
 		label := fmt.Sprintf("%s: %s × %s", parts[0], parts[1], parts[2])
